@@ -190,7 +190,7 @@ def run_job(job):
                 pr.prove(z3.BoolVal(not badt), desc + f': asking twice without new data returns the same answer (differing: {badt})', wit, sample=False)
                 if res['failures']:
                     return
-    explore(res, body, max_paths=400, timeout_ms=20000, precision=rnp.dtype(p), exact=True)
+    explore(res, body, max_paths=800, timeout_ms=20000, precision=rnp.dtype(p), exact=True)     # MIA, n = 4: 5^4 = 625 bin assignments
     return res
 
 
